@@ -31,6 +31,29 @@ UNITS = [
          funcs=[CS + ": detail::counting_semaphore::try_wait"], min_obligations=10),
 ]
 
+LOOP_SIGNAL = """
+__CPROVER_assigns(i, l, SIG_FRAME)
+__CPROVER_loop_invariant(0 <= i && i <= count && g_owed == count - i && l.owns && l.m == mtx && mtx == g_mtx && mtx->held)
+__CPROVER_loop_invariant(self->value_ >= 0 && self->value_ <= 2 * VX_BIG && g_waiters >= 0 && g_waiters <= VX_BIG && g_inflight >= 0 && g_inflight <= 2 * VX_BIG)
+__CPROVER_loop_invariant(g_waiters == 0 || self->value_ <= g_inflight + g_owed)
+__CPROVER_loop_invariant(g_notifies >= 0 && g_notifies <= i)
+__CPROVER_loop_invariant(i == 0 ? (g_releases == 0 && self->value_ == vx_v0 + count) : (g_releases >= 1 && g_first_rel_value == vx_v0 + count))
+__CPROVER_loop_invariant((i > 0 && g_owed == 0) ==> g_lastrel_ok)
+__CPROVER_decreases(count - i)
+"""
+
+UNITS += [
+    Unit("csem.signal", "signal.c", defines=["U_SIGNAL"], enforce="signal",
+         lifts={"body": Lift(CS, r"void counting_semaphore::signal\(", rules=[
+             Sub(r"mutex_type\* mtx = l\.mutex\(\);", "struct vx_mutex* mtx = l.m; ptrdiff_t vx_v0 = self->value_;", 1),
+             Sub(r"std::move\(l\)", "ulock_move(&l)", 1),
+             Call(r"cond_\.notify_one", "cv_notify_one(&self->cond_, {0})", 1),
+             Sub(r"l = std::unique_lock<mutex_type>\(\*mtx\);", "ulock_assign(&l, ulock_make(mtx));", 1),
+             Guard(r"^\{", "{", "ulock_dtor(&l);", 1),
+             Members(["value_"])], loops={1: LOOP_SIGNAL, "count": 1})},
+         funcs=[CS + ": detail::counting_semaphore::signal"], min_obligations=40),
+]
+
 META = {
     "trusted_base": [
         "specs/C08/sem.h cv_wait/cv_wait_until/cv_notify_one/cv_size: contract of detail::condition_variable as seen by a "
